@@ -12,7 +12,9 @@ CLAIMED = {
             "guards; the recorded mutex calls and observer answers are validated step by step against the trace "
             "specification. Spinlocks: every interleaving of the atomic operations of 2-3 threads is model-checked "
             "(mutual exclusion, happens-before of critical sections with the code's own memory orders, ticket order, "
-            "progress) and replayed on the real locks under a cooperative scheduler."
+            "progress) and replayed on the real locks under a cooperative scheduler. spec/Apalache/TicketInd.tla adds an inductive "
+            "invariant of the ticket lock discharged by Apalache (mutual exclusion and ticket order for 4 threads with unbounded "
+            "counters, negative control)."
             " A ThreadSanitizer witness (harness/conc_tsan.cpp: free-running threads on the real header, plain data ordered only by the component) is an additional observation channel beside the model; it decides nothing on its own.",
             "TLC bounds (3 guards, 2 mutexes, 2-3 threads, 2 rounds); interleaving semantics + release/acquire "
             "happens-before (no load buffering); harness seams (counting mutex, __atomic builtin macros) are faithful",
@@ -28,7 +30,13 @@ CLAIMED["C11"] = ("model_checking",
     "callback fires and quiescent_barrier returns - for 2 agents at atomic-access granularity and 3 agents at "
     "access/whole-operation granularity. Every transition of the 2-agent graph is replayed on the real "
     "qs_domain under a cooperative scheduler, together with random schedules of 2-6 agents; each recorded "
-    "trace is validated against the algorithm-independent property-layer trace spec QsTrace.tla."
+    "trace is validated against the algorithm-independent property-layer trace spec QsTrace.tla; executions end with a fair "
+    "drain (every online agent keeps quiescing, every online owner keeps calling run()): a callback that has not run after "
+    "eight complete rounds is a rejection. spec/Apalache/QsInd.tla gives the whole-call protocol an inductive invariant that "
+    "Apalache discharges for an UNBOUNDED period counter (4 agents, 3 nodes, negative control); it is bound to the code by "
+    "whole-call conformance: every call of TLC-generated and long random call sequences on the real domain must be the QsInd "
+    "action with exactly the logged private state, and every reached state must satisfy the invariant (mismatches are "
+    "MODEL-DRIFT, only the ghost-based clause accuses)."
     " A ThreadSanitizer witness (harness/conc_tsan.cpp: free-running threads on the real header, plain data ordered only by the component) is an additional observation channel beside the model; it decides nothing on its own.",
     "bounds: 2-3 agents, 1-2 nodes, <=5 calls per agent, period counter <= 9; interleaving semantics with "
     "release/acquire happens-before (no stale reads); scheduler yields only at seam points (atomic accesses, mutex "
